@@ -209,6 +209,20 @@ func c08Run(c *Ctx) {
 			}
 		}
 	}
+	// 3h''. spellings borrowed from other languages that the grammar does not have: compound assignments, increments, a second
+	// else, elif-like chains — rejected at the first token that cannot continue a valid text, with nothing run
+	for _, bad := range []string{"k <<= 2;", "k >>= 1;", "k += 1;", "k -= 1;", "k *= 2;", "k /= 2;", "k %= 2;", "k **= 2;", "k &= 1;", "k |= 1;", "k ^= 1;", "k &&= 1;", "k ||= 1;", "k++;", "k--;", "++k;", "k <== 2;", "k >== 2;", "k === 1;", "k !== 1;", "k <> 1;", "k =< 2;", "k => 2;", "k <<< 1;", "k >>> 1;",
+		IfElse("k", "{ "+Print("1")+" }", "{ "+Print("2")+" }") + " " + K["else"] + " { " + Print("3") + " }", IfElse("k", Print("1"), IfElse("k > 1", Print("2"), Print("3"))) + " " + K["else"] + " " + Print("4"), If("k", "{ }") + " " + K["else"] + " " + K["else"] + " { }", K["else"] + " { }", If("k", Print("1")) + " " + K["else"] + " " + K["if"] + " { }"} {
+		for _, wrap := range []string{"%s", Print(`"ran"`) + "\n" + Var("k", "1") + "\n%s\n" + Print("k"), Fun("f", "k", " %s ") + " " + Print(`"ran"`)} {
+			src := strings.Replace(wrap, "%s", bad, 1)
+			if c.Mine() {
+				judge(&Case{Gen: "borrowed-spellings", Src: src})
+			}
+			if c.Mine() {
+				judge(&Case{Gen: "borrowed-spellings-cli", Mode: "cli", Src: src})
+			}
+		}
+	}
 	// 3h'. words that merely look reserved are ordinary names (exactly the 15 keywords are reserved)
 	for _, n := range plausibleWords {
 		if _, kw := ref.Keywords[n]; kw || n == "input" {
